@@ -584,7 +584,7 @@ PLAN["C08"] = {
     "tests": [
         {"name": "TestDeterminism", "quick": (1600, 8), "thorough": (48000, 16)},
         {"name": "TestDeterminismDeep", "quick": (4800, 16), "thorough": (96000, 16)},
-        {"name": "TestDigests", "same_seed": True, "quick": (600, 4), "thorough": (3000, 8)},
+        {"name": "TestDigests", "same_seed": True, "quick": (1000, 4), "thorough": (3000, 8)},
         {"name": "TestLegacyMigrationDeterminism", "quick": (4000, 4), "thorough": (200000, 8)},
     ],
     "post": c08_post,
